@@ -1528,9 +1528,11 @@ func filterCmd(args []string) error {
 	hdr["op"] = "header"
 	hdr["prefix"] = *prefix
 	hdr["view"] = cat.Repos
-	chars := ev{}
+	// (a flat list of pairs, not an object: the runner renders an object as one deeply nested
+	// expression, and TLC evaluates that recursively on its main thread's small stack)
+	chars := [][]any{}
 	for _, s := range sortedKeys(fr.names) {
-		chars[s] = charsOf(s)
+		chars = append(chars, []any{s, charsOf(s)})
 	}
 	hdr["chars"] = chars
 	hdr["gen"] = gen
